@@ -470,3 +470,51 @@ def dense_w8(draw):
     nin = d.choice([0, 0, 3, 8, 20])
     inbits = [d.int(0, 1) for _ in range(nin)]
     return {'w': w, 'layout': 'dense8', 'segments': segs, 'input_bits': inbits, 'version': d.int(0, 3)}
+
+
+# ------------------------------------------------------------------ long runs (op counts around the native engine's 2^18 signal-poll stride)
+
+def long_ring_segments(w, P, k, out_every=7):
+    """op 0 -> k prefix ops -> ring of P ops that passes through the input op at address 2w once per lap.  With an
+    all-zero input of I bits the run ends by end of input after 1 + k + (I + 1) * (P + 1) - P ... ops (taken from the
+    reference machine, not from a formula); some ring ops output a bit, the others toggle data bits."""
+    dw = 2 * w
+    nslots = 2 + k + P
+    data0 = 2 * nslots
+    words = []
+    first_ring = 2 + k
+    words += [0, 2 * dw if k else first_ring * dw]
+    words += [data0 * w + 1, first_ring * dw]
+    for i in range(k):
+        words += [data0 * w + 2 + (i % (w - 3)), (2 + i + 1) * dw]
+    for i in range(P):
+        s = first_ring + i
+        nxt = (s + 1) * dw if i + 1 < P else dw
+        f = dw + (i // out_every % 2) if i % out_every == 3 else (data0 + 2 + (i % 5)) * w + (i % w)
+        words += [f, nxt]
+    words += [0] * 10
+    return [[0, len(words), words]]
+
+
+@st.composite
+def long_rings(draw):
+    """total op count lands within +-2 of a multiple of 2^18 (the stride at which the native loops poll signals and
+    refresh their bookkeeping) or a little beyond it"""
+    d = D(draw)
+    w = d.choice([16, 32, 64])
+    P = d.choice([255, 256, 1000, 1024, 4096])
+    stride = 1 << 18
+    mult = d.choice([1, 1, 2])
+    I = (mult * stride) // (P + 1) + 1
+    target = mult * stride + d.choice([-2, -1, 0, 1, 2, 5, 1000])
+    from fjverif import machine
+    base = machine.run(w, long_ring_segments(w, P, 0), [0] * I, budget=4 * stride)
+    # every prefix op adds exactly one executed op; fewer input bits remove whole laps
+    while base.ops > target and I > 1:
+        I -= 1
+        base = machine.run(w, long_ring_segments(w, P, 0), [0] * I, budget=4 * stride)
+    k = target - base.ops
+    if k < 0 or k > 4000:
+        k = 0
+    return {'kind': 'longring', 'w': w, 'segments': long_ring_segments(w, P, k), 'input_bits': [0] * I, 'version': d.int(0, 3),
+            'layout': 'longring', 'P': P, 'k': k}
